@@ -396,6 +396,18 @@ def witness_stagger():
             "order": [0, 1, 2, 3], "cons": cs, "real_pos": {"1": [None, 0.0, 0.0]}}
 
 
+def witness_size_first():
+    """stretched x axis (six cells of width 2 units, then six of width 4): Y (4 cells) sits at cells 6..10 (extent 16), X starts at 0 and takes
+    Y's extent through a SizeConstraint, i.e. 6 + 1 = 7 cells... the size rule must wait until Y is placed: measuring Y's 4 cells anywhere
+    else (seeded regression C27_3: from the lower domain edge) gives another cell count, and then the outcome depends on the constraint order."""
+    cs = [{"k": "size", "o": 1, "other": 2, "es": [[0, 0, 1, 0, 0]]},
+          # Y's lower side 12 units above the volume's lower side (= edge 6 of the stretched axis), by a PositionConstraint
+          {"k": "pos", "o": 2, "other": 0, "es": [[0, -1, -1, 12, 0], [1, -1, -1, 0, 0], [2, -1, -1, 0, 0]]},
+          {"k": "real", "o": 1, "es": [[0, 0, 0], [1, 0, 0], [2, 0, 0]]}]
+    return {"D": 1, "N": [12, 2, 2], "shapes": [[["g", 12], ["g", 2], ["g", 2]], [None, ["g", 1], ["g", 1]], [["g", 4], ["g", 1], ["g", 1]]],
+            "order": [0, 1, 2], "cons": cs, "widths": [[2] * 6 + [4] * 6, [2, 2], [2, 2]]}
+
+
 def witness_single():
     """one object with declared grid shape 4 and grid coordinates (3,9) on every axis."""
     return {"D": 1, "N": [20, 20, 20], "shapes": [[["g", 20]] * 3, [["g", 4]] * 3], "order": [0, 1],
